@@ -65,6 +65,43 @@ structure Dyn where
 /-- a Go `string` in an `any` -/
 def Dyn.ofString (s : String) : Dyn := ⟨"string", .str s⟩
 
+/-- how a trait type declares one of `UnmarshalJSON([]byte) error`, `UnmarshalYAML(*yaml.Node) error`,
+`UnmarshalText([]byte) error`: not at all, on the pointer receiver (what genum itself generates and
+what a hand-written unmarshaler that stores its result has to use), on the value receiver -/
+inductive Recv where
+  | no
+  | ptr
+  | val
+  deriving DecidableEq, Repr
+
+/-- the unmarshal methods in the declared method list of a (named) trait type -/
+structure Methods where
+  json : Recv := .no
+  yaml : Recv := .no
+  text : Recv := .no
+  deriving DecidableEq, Repr
+
+inductive Codec where
+  | json
+  | yaml
+  | text
+  deriving DecidableEq, Repr
+
+/-- `implementsJSONUnmarshaler`, `implementsYAMLUnmarshaler`, `implementsTextUnmarshaler`
+(`traits.go`). The first two ask `gencommon.TypeImplements`, which walks the DECLARED methods of
+the named type and compares names and signatures "with out checking receivers"; the third asks
+`types.Implements(td.Type, iface)`, i.e. the method set of the VALUE type, which a pointer-receiver
+`UnmarshalText` is not part of. -/
+def Methods.implements (m : Methods) : Codec → Bool
+  | .json => m.json != .no
+  | .yaml => m.yaml != .no
+  | .text => m.text == .val
+
+/-- the unmarshal methods of an enum that genum generated under `-json=j -yaml=y -text=t`: each
+switch that is on gives the type that codec's unmarshaler, on the pointer receiver -/
+def Methods.ofSwitches (j y t : Bool) : Methods :=
+  ⟨if j then .ptr else .no, if y then .ptr else .no, if t then .ptr else .no⟩
+
 /-- how `traits.go` classifies the type of a trait column (`extractUnderlying`): a string-kinded
 named type (`types.String`; an UNTYPED string constant is not in the switch and needs no cast),
 a signed / unsigned integer kind of some width, or nothing the template has a decoder branch for
@@ -74,12 +111,20 @@ inductive Family where
   | nstr
   | sint (bits : Nat)
   | uint (bits : Nat)
-  /-- a type that unmarshals itself from JSON and YAML (`implementsJSONUnmarshaler` /
-  `implementsYAMLUnmarshaler`): another enum of the package whose generated code already exists
-  when the generator runs; `inner` names that enum -/
-  | self (inner : String)
+  /-- an integer-kinded named type of the package that declares unmarshal methods of its own `m`:
+  another enum whose generated code already exists when the generator runs (it has exactly the
+  methods its own `-json`, `-yaml`, `-text` switches gave it), or a hand-written type; `inner` names the
+  type, `signed`/`bits` its underlying kind (`extractUnderlying` looks through the name) -/
+  | self (inner : String) (signed : Bool) (bits : Nat) (m : Methods)
   | none
   deriving DecidableEq, Repr
+
+/-- the trait type brings its own unmarshaler for codec `c`, as `traits.go` sees it. Basic kinds,
+method-less named types and `time.Duration` bring none. -/
+def Family.implements (fam : Family) (c : Codec) : Bool :=
+  match fam with
+  | .self _ _ _ m => m.implements c
+  | _ => false
 
 /-- `types.BasicKind` of the underlying type of a trait column, as far as `extractUnderlying`
 (`traits.go`) distinguishes kinds -/
@@ -381,10 +426,13 @@ Mirrors `extractTraitDescs`, the per-line instance loop, `processDuplicates`,
 switch (99-108), `Marshal*`/`Unmarshal*` (132-355). Current tree = all `Quirks` off; the pinned
 algorithms are the `Quirks` switched on, kept for the witness theorems.
 
-Not modelled: float families, import aliasing. Types that bring their own unmarshaler ("native
-parsing") are modelled for enums of the same package generated in an EARLIER run (`Family.self`);
-a trait whose type is an enum generated IN THE SAME RUN is not such a type — its methods do not
-exist yet when the generator inspects it — and falls in its integer family. -/
+Not modelled: float families, import aliasing. Types that bring their own unmarshalers ("native
+parsing") are modelled for integer-kinded types of the same package (`Family.self`): enums
+generated in an EARLIER run under any subset of `-json`, `-yaml`, `-text` (each switch gives the type
+that codec's pointer-receiver unmarshaler) and hand-written types with any subset of the three
+methods. PER CODEC such a type is either in its integer family (`numericTraits c`) or in the native
+block (`nativeTry c`), never both. A trait whose type is an enum generated IN THE SAME RUN has no
+methods yet when the generator inspects it and is in its integer family for every codec. -/
 
 /-- deviations of the pinned commit from the current tree -/
 structure Quirks where
@@ -396,6 +444,9 @@ structure Quirks where
   parseRowsByIndex : Bool := false
   /-- numeric fallbacks convert `T(x)` without checking that `x` fits `T` -/
   noRangeGuard : Bool := false
+  /-- `validateParsableTraits` marks a repeated constant TEXT whatever the two traits' types
+  (/repo 7793249, before 42de8c1) -/
+  repeatIgnoresType : Bool := false
   deriving DecidableEq, Repr
 
 /-- one `case Owner: return <constant>` row of a trait -/
@@ -491,8 +542,10 @@ and (default) type - was already walked for the same enum value: `InstanceOf` th
 next to `0`) is a different key of a switch on an `any` and is not marked.  In the model the written constant
 of a row is its `dyn` (type name and value), so a row is marked exactly when an earlier walked row of a
 parsable trait has the same owner name and an equal `dyn`.  On the property's domain (pairwise distinct
-parsable constants) no row is marked.  The Parse switch of the model (`traitCaseOne`) does not consult the
-marks: on inputs with a repeated key the model still reports `dupCase` (outside the quantifier). -/
+parsable constants) no row is marked.  The Parse switch of the model (`traitCaseOne`) consults the same rule in
+closed form, `repeatsParseKey` below (an earlier parsable trait in NAME order - the order of the list
+`validateParsableTraits` is given, `processDuplicates` having sorted it - has a row with the same owner name and
+an equal `dyn`); `repeatMarks` is the walk the translated code is tied to. -/
 
 /-- the rows of one parsable trait walked after the (owner name, constant) pairs `seen`: which rows are marked,
 and the pairs walked afterwards -/
@@ -546,24 +599,44 @@ structure GenFull where
 def TraitDesc.instanceOf (t : TraitDesc) (v : Value) : Option TraitRow :=
   t.rows.find? (fun r => r.owner.name == v.name)
 
+/-- BEGIN repeat marking (`TraitInstance.repeatsParseKey`, set by `validateParsableTraits`).
+The instance `r` of parsable trait `t` is left out of its value's `case` in the `Parse` switch
+(`TraitDesc.InstanceOf` returns nil) when a parsable trait EARLIER IN THE WALK carries, on the same
+enum value, an equal constant of an identical (default) type: it already is a key of that value.
+The walk is in NAME order: `processDuplicates`, which runs just before, ends with
+`sort.Sort(traits)` on the shared slice (trait names are distinct). The key is the constant as it is
+WRITTEN on the line (`keyType` / `keyValue`: the declared constant on the first line, the type and
+value of the expression on later lines) — in the model a constant IS its dynamic type and scalar, so
+the test is equality of `Dyn`. A constant of ANOTHER type with the same value (`Tint(0)` next to
+`0`) is a different key of the switch on an `any` and stays. The rule of /repo 7793249
+(`repeatIgnoresType`) compared the value TEXTS only and dropped such a key. -/
+def repeatsParseKey (q : Quirks) (ts : List TraitDesc) (first : Option Value) (t : TraitDesc) (r : TraitRow) : Bool :=
+  ts.any (fun t' => t'.parsable && decide (t'.name < t.name) && t'.rows.any (fun r' =>
+    r'.owner.name == r.owner.name &&
+      (if q.repeatIgnoresType then
+        let isFirst := first.any (fun f => f.name == r.owner.name)
+        rowText t'.ty isFirst r'.dyn.v == rowText t.ty isFirst r.dyn.v
+       else r'.dyn == r.dyn)))
+/- END repeat marking -/
+
 /-- the constant a parsable trait contributes to the `case` of the `j`-th value -/
-def traitCaseOne (q : Quirks) (j : Nat) (v : Value) (t : TraitDesc) : Except GenFailure (List Dyn) :=
+def traitCaseOne (q : Quirks) (ts : List TraitDesc) (first : Option Value) (j : Nat) (v : Value) (t : TraitDesc) : Except GenFailure (List Dyn) :=
   if q.parseRowsByIndex then
     match t.rows[j]? with
     | some r => .ok [r.dyn]
     | none => .error .templateIndex
   else
     match t.instanceOf v with
-    | some r => .ok [r.dyn]
+    | some r => if repeatsParseKey q ts first t r then .ok [] else .ok [r.dyn]
     | none => .ok []
 
 /-- the trait constants of the `case` of the `j`-th value -/
-def traitCaseConsts (q : Quirks) (ts : List TraitDesc) (j : Nat) (v : Value) : Except GenFailure (List Dyn) :=
-  ((ts.filter (fun t => t.parsable)).mapM (traitCaseOne q j v)).map List.flatten
+def traitCaseConsts (q : Quirks) (ts : List TraitDesc) (first : Option Value) (j : Nat) (v : Value) : Except GenFailure (List Dyn) :=
+  ((ts.filter (fun t => t.parsable)).mapM (traitCaseOne q ts first j v)).map List.flatten
 
 def parseCases (q : Quirks) (ts : List TraitDesc) (vs : List Value) : Except GenFailure (List ParseCase) :=
   ((List.range vs.length).zip vs).mapM (fun (j, v) =>
-    (traitCaseConsts q ts j v).map (fun cs => (⟨Dyn.ofString v.name :: cs, v⟩ : ParseCase)))
+    (traitCaseConsts q ts vs.head? j v).map (fun cs => (⟨Dyn.ofString v.name :: cs, v⟩ : ParseCase)))
 
 /-- duplicate constants among the cases of one generated `switch` = compile error -/
 def hasDupCase (g : GenFull) : Bool :=
@@ -587,7 +660,7 @@ def genFull (o : Options) (f : FileDef) (t : TypeDecl) : Except GenFailure GenFu
 def zeroOf (ty : String) (fam : Family) (sample : Option Scalar) : Dyn :=
   match fam, sample with
   | .ustr, _ | .nstr, _ => ⟨ty, .str ""⟩
-  | .sint _, _ | .uint _, _ | .self _, _ => ⟨ty, .int 0⟩
+  | .sint _, _ | .uint _, _ | .self .., _ => ⟨ty, .int 0⟩
   | .none, some (.bool _) => ⟨ty, .bool false⟩
   | .none, some (.int _) => ⟨ty, .int 0⟩
   | .none, some (.str _) => ⟨ty, .str ""⟩
@@ -640,11 +713,13 @@ def firstSome {α : Type} : List (Option α) → Option α
   | some a :: _ => some a
   | none :: r => firstSome r
 
-/-- signedness of an integer family (`GetParsableUnderlyingInt64…` / `…Uint64…`) -/
+/-- `hasUnderlying(int64Underlying)` (`signed`) / `hasUnderlying(uint64Underlying)`: the kind of
+the underlying basic type, whatever methods the named type declares -/
 def Family.isNumeric (fam : Family) (signed : Bool) : Bool :=
   match fam with
   | .sint _ => signed
   | .uint _ => !signed
+  | .self _ sg _ _ => sg == signed
   | _ => false
 
 /-- width of the trait type a numeric fallback converts to -/
@@ -652,15 +727,19 @@ def Family.bitsOf (fam : Family) : Nat :=
   match fam with
   | .sint b => b
   | .uint b => b
+  | .self _ _ b _ => b
   | _ => 64
 
-/-- the parsable traits one numeric fallback block ranges over -/
-def GenFull.numericTraits (g : GenFull) (signed : Bool) : List TraitDesc :=
-  g.traits.filter (fun t => t.parsable && t.fam.isNumeric signed)
+/-- `GetParsableUnderlyingInt64For<C>` (`signed`) / `GetParsableUnderlyingUint64For<C>`: the
+parsable traits of that underlying kind, EXCLUDING those whose type brings its own unmarshaler for
+codec `c` (`getParsableUnderlying(u, implements<C>Unmarshaler)`). One numeric fallback block ranges
+over, and is guarded by, this list. -/
+def GenFull.numericTraits (g : GenFull) (c : Codec) (signed : Bool) : List TraitDesc :=
+  g.traits.filter (fun t => t.parsable && t.fam.isNumeric signed && !t.fam.implements c)
 
 /-- the numeric fallback of one family: `if v := T(x); int64(v) == x { Parse(v) }` per trait -/
-def numericTry (q : Quirks) (g : GenFull) (signed : Bool) (x : Int) : Option Int :=
-  firstSome ((g.numericTraits signed).map (fun t =>
+def numericTry (q : Quirks) (g : GenFull) (c : Codec) (signed : Bool) (x : Int) : Option Int :=
+  firstSome ((g.numericTraits c signed).map (fun t =>
     let v := wrapTo signed t.fam.bitsOf x
     if q.noRangeGuard || v == x then g.base.parse ⟨t.ty, .int v⟩ else none))
 
@@ -675,10 +754,10 @@ def stringTry (g : GenFull) (s : String) : Option Int :=
 def GenFull.unmarshalJSON (q : Quirks) (g : GenFull) : JDoc → Option Int
   | .str s => stringTry g s
   | .num i =>
-    let u := if 0 ≤ i ∧ i < (two64 : Int) then numericTry q g false i else none
+    let u := if 0 ≤ i ∧ i < (two64 : Int) then numericTry q g .json false i else none
     match u with
     | some v => some v
-    | none => if -(two63 : Int) ≤ i ∧ i < (two63 : Int) then numericTry q g true i else none
+    | none => if -(two63 : Int) ≤ i ∧ i < (two63 : Int) then numericTry q g .json true i else none
   | .other => none
 
 /-- `UnmarshalText` -/
@@ -689,46 +768,56 @@ def GenFull.unmarshalYAML (q : Quirks) (g : GenFull) (text : String) : Option In
   match stringTry g text with
   | some v => some v
   | none =>
-    let hasU := !(g.numericTraits false).isEmpty   -- the block exists only if the family is non-empty
-    let hasS := !(g.numericTraits true).isEmpty
+    let hasU := !(g.numericTraits .yaml false).isEmpty   -- the block exists only if ITS list is non-empty
+    let hasS := !(g.numericTraits .yaml true).isEmpty
     let u :=
       if !hasU then none
       else match parseUintLit text, q.yamlGuardInverted with
-        | some x, false => numericTry q g false x
-        | none, true => numericTry q g false 0      -- `uinter64` is 0 when ParseUint failed
+        | some x, false => numericTry q g .yaml false x
+        | none, true => numericTry q g .yaml false 0      -- `uinter64` is 0 when ParseUint failed
         | _, _ => none
     match u with
     | some v => some v
     | none =>
       if !hasS then none
       else match parseIntLit text, q.yamlGuardInverted with
-        | some x, false => numericTry q g true x
-        | none, true => numericTry q g true 0
+        | some x, false => numericTry q g .yaml true x
+        | none, true => numericTry q g .yaml true 0
         | _, _ => none
 
-/-- the "native parsing" block: for every parsable trait whose type unmarshals itself, let the
-type's own decoder read the document (`dec inner`), then `Parse<T>` of the decoded value -/
-def GenFull.nativeTry (g : GenFull) (dec : String → Option Int) : Option Int :=
+/-- the "native parsing" block of the decoder for codec `c` (`GetParsable<C>Unmarshalable`): for
+every parsable trait whose type brings its own unmarshaler for `c`, let that unmarshaler read the
+document (`dec inner`), then `Parse<T>` of the decoded value -/
+def GenFull.nativeTry (g : GenFull) (c : Codec) (dec : String → Option Int) : Option Int :=
   firstSome ((g.traits.filter (fun t => t.parsable)).map (fun t =>
     match t.fam with
-    | .self inner =>
-      match dec inner with
-      | some v => g.base.parse ⟨t.ty, .int v⟩
-      | none => none
+    | .self inner _ _ m =>
+      if m.implements c then
+        match dec inner with
+        | some v => g.base.parse ⟨t.ty, .int v⟩
+        | none => none
+      else none
     | _ => none))
 
 /-- the whole `UnmarshalJSON`: the string / uint64 / int64 branches, then the native block, which
-hands the document to the `UnmarshalJSON` of each self-unmarshalling trait type (`env`) -/
+hands the document to the `UnmarshalJSON` of each trait type that has one (`env`) -/
 def GenFull.unmarshalJSONFull (q : Quirks) (env : String → JDoc → Option Int) (g : GenFull) (doc : JDoc) : Option Int :=
   match g.unmarshalJSON q doc with
   | some v => some v
-  | none => g.nativeTry (fun inner => env inner doc)
+  | none => g.nativeTry .json (fun inner => env inner doc)
 
 /-- the whole `UnmarshalYAML` -/
 def GenFull.unmarshalYAMLFull (q : Quirks) (env : String → String → Option Int) (g : GenFull) (text : String) : Option Int :=
   match g.unmarshalYAML q text with
   | some v => some v
-  | none => g.nativeTry (fun inner => env inner text)
+  | none => g.nativeTry .yaml (fun inner => env inner text)
+
+/-- the whole `UnmarshalText`: the string branches (there is no numeric one), then the native block
+over the types that `implementsTextUnmarshaler` accepts (value-receiver `UnmarshalText` only) -/
+def GenFull.unmarshalTextFull (env : String → String → Option Int) (g : GenFull) (text : String) : Option Int :=
+  match g.unmarshalText text with
+  | some v => some v
+  | none => g.nativeTry .text (fun inner => env inner text)
 
 /-- `MarshalJSON` / `MarshalText` / `MarshalYAML`: all three emit `String()` -/
 def GenFull.marshal (g : GenFull) (e : Int) : String := g.base.string e
